@@ -381,9 +381,10 @@ func checkC04(c *Ctx) {
 	lib := libFiles()
 	datas := c02Data()
 	nBodies := 0
-	enumBodies(c.Thorough(), func(body []*Cmd, variant int) {
+	always := false
+	handle := func(body []*Cmd, variant int) {
 		nBodies++
-		if !c.Thorough() && nBodies%4 != 0 {
+		if !always && !c.Thorough() && nBodies%4 != 0 {
 			return
 		}
 		if !c.Mine() {
@@ -438,7 +439,24 @@ func checkC04(c *Ctx) {
 			w, st := x.run("app.main.entry", ds[i])
 			return w, st == stOK
 		})
-	})
+	}
+	enumBodies(c.Thorough(), handle)
+	// component-style nesting (always run): a call inside the block param of a call, with the same
+	// param key at each level, directly, in a loop and three levels deep
+	always = true
+	show := func(key string, content ...*Cmd) *Cmd {
+		return &Cmd{K: "call", Call: &CallSpec{Name: "deep.show", Target: "lib.deep.show", Params: []CallParam{{Key: key, Content: content}}}}
+	}
+	for _, body := range [][]*Cmd{
+		{show("x", txt("a"), show("x", txt("b"), pr(vr("y"))), txt("c"))},
+		{show("y", txt("a"), show("y", txt("b")), txt("c"), show("y", pr(vr("x"))))},
+		{show("x", txt("["), &Cmd{K: "foreach", Var: "y", E: vr("l"), Body: []*Cmd{show("x", pr(vr("y")))}}, txt("]"))},
+		{show("x", txt("1"), show("x", txt("2"), show("x", txt("3"), pr(vr("y"))), txt("4")), txt("5")), pr(vr("y"))},
+		{{K: "letc", Var: "y", Body: []*Cmd{txt("p"), show("x", txt("q"), &Cmd{K: "letc", Var: "y", Body: []*Cmd{txt("r")}}, pr(vr("y"))), txt("s")}}, pr(vr("y"))},
+	} {
+		handle(body, 0)
+		handle(body, 1)
+	}
 
 	// ---- Part 3: messages with and without bundles, plurals, autoescape modes x directives ----
 	msgBodies := []string{
